@@ -268,7 +268,28 @@ def _isclose_boundary(prefix):
     wo = bool(obj(a0, p0, E).isclose(obj(b0, p0, E))); wr = bool(awk([a0], [p0], [E])[0].isclose(awk([b0], [p0], [E])[0])); n_eval += 1
     if wo != wr:
         report(f"{prefix}:array-differs-from-object:isclose:record-with-error", f"record {wr}, object {wo}", {"a": a0, "b": b0, "pivot": p0})
+def _named_pivot_forms(prefix):
+    """a new pivot given as a coordinate RECORD / per-track record array whose fields are declared in another order than x, y, z:
+    coordinates are named, the reported pivot is the requested one and the move equals the move to (x, y, z)"""
+    global n_eval
+    par, p0, p1 = gen_helix(), gen_pivot(), gen_pivot("near"); E = gen_error()
+    want_h = obj(par, p0, E).change_pivot(*p1); want = pars(want_h) + list(p1)
+    for order in ("zxy", "yzx"):
+        rec = ak.Record({c: p1["xyz".index(c)] for c in order})
+        per = ak.zip({c: [p1["xyz".index(c)]] * 2 for c in order}, with_name="Vector3D")
+        forms = {"obj": lambda: (lambda h: pars(h) + piv_of(h))(obj(par, p0, E).change_pivot(rec)),
+                 "rec": lambda: (lambda r: [float(r[f]) for f in FIELDS5] + [float(r.pivot[c]) for c in "xyz"])(awk([par], [p0], [E])[0].change_pivot(rec)),
+                 "arr": lambda: (lambda a: [float(a[f][1]) for f in FIELDS5] + [float(a.pivot[c][1]) for c in "xyz"])(awk([par, par], [p0, p0], [E, E]).change_pivot(rec)),
+                 "arr-per-track": lambda: (lambda a: [float(a[f][1]) for f in FIELDS5] + [float(a.pivot[c][1]) for c in "xyz"])(awk([par, par], [p0, p0], [E, E]).change_pivot(per))}
+        for fe, mk in forms.items():
+            bump(f"pivot-form:record-{order}:{fe}"); n_eval += 1
+            got = mk()
+            if got[5:] != list(p1):
+                report(f"{prefix}:pivot-not-reported:record-fields-{order}:{fe}", f"pivot given as a record with fields declared {order}: reported {got[5:]}, requested {p1}", {"par": par, "pivot": p0, "new_pivot": p1})
+            elif any(abs(g - w) > 1e-9 * scale(par, p0, p1) * (1 + abs(par[4])) for g, w in zip(got, want)):
+                report(f"{prefix}:array-differs-from-object:record-fields-{order}:{fe}", f"{got} vs move to x, y, z {want}", {"par": par, "pivot": p0, "new_pivot": p1})
 int_columns_move = _guarded(_int_columns_move, "int-columns")
+named_pivot_forms = _guarded(_named_pivot_forms, "named-pivot")
 isclose_boundary = _guarded(_isclose_boundary, "isclose-boundary")
 reuse_history = _guarded(_reuse_history, "history")
 object_mutation = _guarded(_object_mutation, "history-object")
@@ -320,7 +341,7 @@ def do_c06():
         par, p0, p1 = corner(i) or (gen_helix(), gen_pivot(), gen_pivot())
         if i >= len(CORNERS) and i % 8 == 0: p1 = near_centre_pivot(par, p0)
         if i % 12 == 0: object_mutation("C06")
-        if i % 25 == 0: int_columns_move("C06"); reuse_history("C06")
+        if i % 25 == 0: int_columns_move("C06"); reuse_history("C06"); named_pivot_forms("C06")
         c = centre(par, p0)
         if math.hypot(c[0] - p1[0], c[1] - p1[1]) < 1e-3: continue
         fe = rng.choice(["obj", "rec", "arr"])
@@ -398,6 +419,7 @@ def do_c11():
         if not cc and i % 8 == 0: seq[rng.randrange(len(seq))] = near_centre_pivot(par, p0)
         if i % 10 == 0: int_columns_move("C11")
         if i % 12 == 0: reuse_history("C11"); object_mutation("C11")
+        if i % 20 == 0: named_pivot_forms("C11")
         if i % 40 == 0: reordered_views("C11")
         c = centre(par, p0)
         if any(math.hypot(c[0] - p[0], c[1] - p[1]) < 1e-3 for p in seq + [p0]): continue
@@ -571,8 +593,53 @@ def call_forms(par, p0, E, p1):
         report(f"C13:call-forms:raises:{type(e).__name__}:{where}", f"a documented call form made the implementation raise {type(e).__name__} at {where} "
                f"(search line {mine}): {str(e)[:200]}", {"par": par, "pivot": p0, "new_pivot": p1})
 
+FRESH_INT = r"""
+import json, numpy as np, awkward as ak, pybes3 as p3
+import pybes3.tracks.helix as H
+k = np.array([2, -4, 1, -1, 3], dtype=np.int64); ph = np.array([0, 1, 2, 3, 5], dtype=np.int64); d = np.array([1, -2, 0, 3, -1], dtype=np.int64)
+out = {}
+# integer-typed arrays are the FIRST thing these kernels see in this process (numba compiles a loop per input type on first use)
+h = p3.helix_awk(dr=ak.Array(d), phi0=ak.Array(ph), kappa=ak.Array(k), dz=ak.Array(d), tanl=ak.Array(ph), pivot=(0.5, 0.25, 0.75))
+out["awk"] = {"pt": h.momentum.pt.tolist(), "phi": h.momentum.phi.tolist(), "pz": h.momentum.pz.tolist(), "x": h.position.x.tolist(), "y": h.position.y.tolist(),
+              "z": h.position.z.tolist(), "charge": h.charge.tolist(), "radius": h.radius.tolist()}
+r = h[1]
+out["rec"] = {"pt": float(r.momentum.pt), "pz": float(r.momentum.pz), "x": float(r.position.x), "radius": float(r.radius), "charge": int(r.charge)}
+for name, args in (("kappa_to_pt", (k,)), ("kappa_to_charge", (k,)), ("kappa_to_radius", (k,)), ("phi0_to_phi", (ph,)), ("dr_phi0_to_x", (d, ph)), ("dr_phi0_to_y", (d, ph))):
+    f = getattr(H, name, None)
+    if f is not None: out[name] = np.asarray(f(*args)).tolist()
+out["scalar"] = {"kappa_to_pt(2)": float(H.kappa_to_pt(2)) if hasattr(H, "kappa_to_pt") else None}
+print(json.dumps(out))
+"""
+
+def fresh_process_int_first():
+    """whole-number parameters given as integer arrays / Python ints to a FRESH interpreter: the documented formulas, not integer arithmetic"""
+    global n_eval
+    import subprocess, os
+    bump("history:fresh-process-int-first")
+    pr = subprocess.run([sys.executable, "-c", FRESH_INT], capture_output=True, text=True, timeout=600, env=dict(os.environ))
+    if pr.returncode != 0:
+        report("C13:fresh-process-int-first:raises", f"integer-typed helix parameters as the first use of a fresh process raised: {pr.stderr[-300:]}", {"script": "FRESH_INT in tools/impl/helix_impl.py"}); return
+    out = json.loads(pr.stdout.strip().splitlines()[-1])
+    k = [2, -4, 1, -1, 3]; ph = [0, 1, 2, 3, 5]; d = [1, -2, 0, 3, -1]
+    want = {"pt": [1 / abs(x) for x in k], "phi": [(p + math.pi / 2) % TWO_PI for p in ph], "pz": [pp / abs(x) for pp, x in zip(ph, k)],
+            "x": [0.5 + a * math.cos(p) for a, p in zip(d, ph)], "y": [0.25 + a * math.sin(p) for a, p in zip(d, ph)], "z": [0.75 + a for a in d],
+            "charge": [1 if x > 0 else -1 for x in k], "radius": [1000 / 2.99792458 / abs(x) for x in k]}
+    for nm, w in want.items():
+        g = out["awk"][nm]; n_eval += len(w)
+        if any(abs(wrap(a - b)) > 1e-9 if nm == "phi" else abs(a - b) > 1e-9 * (1 + abs(b)) for a, b in zip(g, w)):
+            report(f"C13:formula:{nm}:integer-columns:fresh-process", f"helix_awk with int64 columns as the first use of a fresh process: {nm} = {g}, documented formulas give {w}", {"kappa": k, "phi0": ph, "dr": d, "dz": d, "tanl": ph, "pivot": [0.5, 0.25, 0.75]})
+    if abs(out["rec"]["pt"] - 0.25) > 1e-12 or abs(out["rec"]["radius"] - 1000 / 2.99792458 / 4) > 1e-9:
+        report("C13:formula:record:integer-columns:fresh-process", f"record of integer-typed columns: {out['rec']}", {"kappa": k})
+    for nm, w in (("kappa_to_pt", want["pt"]), ("kappa_to_charge", want["charge"]), ("kappa_to_radius", want["radius"]),
+                  ("dr_phi0_to_x", [a * math.cos(p) for a, p in zip(d, ph)]), ("dr_phi0_to_y", [a * math.sin(p) for a, p in zip(d, ph)])):
+        if nm in out and any(abs(a - b) > 1e-9 * (1 + abs(b)) for a, b in zip(out[nm], w)):
+            report(f"C13:formula:{nm}:integer-input:fresh-process", f"{nm}(int64 array) as first use of a fresh process = {out[nm]}, formula gives {w}", {"input": k})
+    if out["scalar"]["kappa_to_pt(2)"] is not None and abs(out["scalar"]["kappa_to_pt(2)"] - 0.5) > 1e-12:
+        report("C13:formula:kappa_to_pt:python-int:fresh-process", f"kappa_to_pt(2) = {out['scalar']['kappa_to_pt(2)']}", {})
+
 def do_c13():
     global n_eval
+    fresh_process_int_first()
     n = 500 if tier == "quick" else 5000
     for i in range(n):
         par, p0 = gen_helix(), gen_pivot()
@@ -813,6 +880,7 @@ def do_c07():
         if i % 2 == 0: isclose_boundary("C07")
         if i % 4 == 0: reordered_views("C07")
         if i % 5 == 0: reuse_history("C07")
+        if i % 7 == 0: named_pivot_forms("C07")
         # permutation equivariance on the flat layout
         perm = list(range(m)); rng.shuffle(perm)
         a1 = awk(P, [p0] * m).change_pivot(*p1); a2 = awk([P[k] for k in perm], [p0] * m).change_pivot(*p1); n_eval += 1
@@ -839,7 +907,7 @@ def do_c12():
             # radial moves (turning angle 0 up to rounding): onto the helix' own reference point, and along the line pivot - centre
             t = rng.choice([1.0, rng.uniform(-3, 3)]); bump("pivot:radial")
             p1 = [p0[0] + t * par[0] * math.cos(par[1]) + (0 if t == 1.0 else t * math.cos(par[1])), p0[1] + t * par[0] * math.sin(par[1]) + (0 if t == 1.0 else t * math.sin(par[1])), p0[2] + rng.uniform(-2, 2)]
-        if i % 10 == 0: reuse_history("C12")
+        if i % 10 == 0: reuse_history("C12"); object_mutation("C12")
         if i % 25 == 0: reordered_views("C12")
         c = centre(par, p0)
         if math.hypot(c[0] - p1[0], c[1] - p1[1]) < 0.5: continue
